@@ -5,8 +5,9 @@
    GoroutineTaskManager.RecordRange and CalcMinimumRequired by the correspondence check, and the
    use of the patterns by the call sites is tied by end-to-end determinism runs of the binary. *)
 From Coq Require Import ZArith List Bool Permutation Lia Sorted.
-Require Import Csvq.Model.Par Csvq.Proofs.Par.
+Require Import Csvq.Model.Par Csvq.Proofs.Par Csvq.Harness.H12 Csvq.Proofs.C12.
 Import ListNotations.
+Open Scope nat_scope.
 
 (* ---- how the records are split: for EVERY record count and EVERY number of goroutines -------- *)
 Theorem C12_ranges_partition : forall len n, 1 <= n ->
@@ -34,6 +35,15 @@ Proof. exact ranges_within. Qed.
 Theorem C12_range_small : forall len n i, 1 <= n -> len < n -> i < n ->
   range len n i = if i =? n - 1 then seq 0 len else [].
 Proof. exact range_small. Qed.
+
+(* the decidable checker the correspondence runs on the ranges RecordRange actually returned
+   (Harness/H12.v r_spec_ok) accepts only partitions: Number ranges enumerating 0..recordLen-1 once *)
+Theorem C12_range_checker_sound : forall c, r_spec_ok c = true ->
+  Z.of_nat (length (robs c)) = (2 * rn c)%Z /\ (0 <= rlen c)%Z /\ covered (robs c) = zseq 0 (Z.to_nat (rlen c)).
+Proof. exact r_spec_ok_sound. Qed.
+Example C12_range_checker_accepts_model : r_spec_ok (mkR 0 10 4 (model_ranges 10 4)) = true
+  /\ r_spec_ok (mkR 0 3 4 (model_ranges 3 4)) = true /\ r_spec_ok (mkR 0 10 2 [0; 5; 6; 10]%Z) = false.
+Proof. vm_compute. repeat split; reflexivity. Qed.
 
 Example C12_ranges_example : ranges 10 4 = [[0;1]; [2;3]; [4;5]; [6;7;8;9]] /\ ranges 3 4 = [[]; []; []; [0;1;2]].
 Proof. vm_compute. split; reflexivity. Qed.
